@@ -141,6 +141,10 @@ def gen_network(ctx, rng, idx):
     N.decorate(rng, net, extern=rng.choice([0.0, 0.3, 0.8]), coords=(kind != "lev" and rng.random() < 0.25),
                vectors=(kind == "3d" and rng.random() < 0.3), obscov=0.0, hdcov=0.0)
     desc = N.nasty_text(rng)
+    if desc.lstrip().startswith("<"):
+        # html.cpp: a description whose first character is '<' is taken to be HTML markup and copied verbatim
+        # (deliberate feature); such descriptions are outside "text" descriptions
+        desc = "d " + desc
     axes = rng.choice([None, None, "ne", "en", "sw", "nw", "es", "wn", "se", "ws"])
     angles = rng.choice([None, None, "left-handed", "right-handed"])
     gkf = N.to_gkf2(net, axes=axes, angles=angles, description=desc, degrees=(rng.random() < 0.15 and kind != "lev"))
@@ -302,6 +306,16 @@ def read_text_adjusted(txt):
     """{(id, 'x'|'y'|'z'): adjusted value string} from the English text output"""
     res, cur = {}, None
     lines = txt.split("\n")
+    # levelling-only networks print a table "Adjusted heights": i, point, approximate, correction, adjusted
+    for i, l in enumerate(lines):
+        if l.startswith("Adjusted heights"):
+            for h in lines[i + 5:]:
+                m = re.match(r"^\s*(\d+)\s+(\S.*?)\s+\*?\s*(-?\d+\.\d+)\s+(-?\d+\.\d+)\s+(-?\d+\.\d+)\s", h)
+                if m:
+                    res[(m.group(2).strip(), "z")] = m.group(5)
+                elif h.strip() == "" and res:
+                    break
+            return res
     try:
         i0 = next(i for i, l in enumerate(lines) if l.startswith("Adjusted coordinates"))
     except StopIteration:
@@ -588,7 +602,7 @@ def _correspond(ctx, corr, gdir, exe, rng, wd):
     for f in sorted(corpus.glob("net-*.gkf")):
         nets.append({"kind": "corpus", "gkf": f.read_text(encoding="utf-8"), "net": None, "desc": None, "flavour": "corpus",
                      "rng": random.Random(f.name)})
-    for k in range(ctx.size(10, 120)):
+    for k in range(ctx.size(30, 300)):
         sub = random.Random(rng.getrandbits(64))
         c = gen_network(ctx, sub, k)
         c["rng"] = sub
@@ -643,7 +657,7 @@ def _correspond(ctx, corr, gdir, exe, rng, wd):
         j = rec["index_case"]
         if impl[j] != model[j]:
             corr.disagree("index", [ops[j][0][:300], {"gkf": c["gkf"]}], impl[j], model[j])
-        elif impl[j] and impl[j][0].split()[1:] != [str(k) for k in range(1, dim + 1)]:
+        if j not in crashes and impl[j] and impl[j][0].split()[1:] != [str(k) for k in range(1, dim + 1)]:
             corr.fail("reader's index numbering is not 1..dim", payload, "LocalNetworkAdjustmentResults::Parser::point", impl[j][0])
         # html through gama's own HtmlParser
         j = rec["html_case"]
@@ -749,11 +763,14 @@ def compare_two(ctx, gdir, wd, r, c, corr):
     payload = dict(r["payload"], gkf2=g2.read_text(encoding="utf-8"))
     rc, out, err = sh([str(gdir / "compare-xyz"), "--set-tolerance", "1e9", x1p, x2p], timeout=60)
     mx = re.search(r"^max\s+(\S+)\s+(\S+)\s+(\S+)", out, re.M)
+    # CompareXYZ::fetch_file keeps only points that have x, y and z adjusted ("compare-xyz")
     want = [0.0, 0.0, 0.0]
     for (pid, cc), v in a1.items():
-        if (pid, cc) in a2:
+        if (pid, cc) in a2 and all((pid, c3) in a1 and (pid, c3) in a2 for c3 in "xyz"):
             k = "xyz".index(cc)
             want[k] = max(want[k], abs(float(a2[(pid, cc)]) - float(v)))
+    if any(want):
+        corr.count("compare_two_xyz")
     if not mx:
         corr.fail("compare-xyz of two results prints no max line", payload, "CompareXYZ", (out + err)[-600:])
     else:
@@ -779,9 +796,18 @@ def compare_two(ctx, gdir, wd, r, c, corr):
 
 
 def languages(ctx, gdir, wd, r, c, corr):
-    gkf = wd / f"n{r['idx']}.gkf"
+    # the numeric-token comparison needs identifiers that cannot be mistaken for numbers in any encoding
+    net = json.loads(json.dumps(c["net"]))
+    N.rename_ids(net, {pid: f"P{k + 1}" for k, pid in enumerate(list(net["points"]))})
+    gkf = wd / f"n{r['idx']}_plain.gkf"
+    gkf.write_text(N.to_gkf2(net, axes=c["axes"], angles=c["angles"], description="plain"), encoding="utf-8")
+    r = dict(r, payload=dict(r["payload"], gkf=gkf.read_text(encoding="utf-8")))
     ref = None
-    combos = [(l, e) for l in LANGS for e in ENCS]
+    # an encoding is only meaningful for the scripts it can represent (ru in iso-8859-2 is mojibake whose bytes
+    # happen to look like digits): latin-2 family for the latin-script languages, cp-1251 for ru/ua, utf-8 for all
+    latin = {"en", "ca", "cz", "du", "es", "fi", "fr", "hu"}
+    combos = [(l, e) for l in LANGS for e in ENCS
+              if e == "utf-8" or (e == "cp-1251" and l in ("ru", "ua", "en")) or (e != "cp-1251" and l in latin)]
     if not ctx.thorough:
         combos = random.Random(r["idx"]).sample(combos, 8) + [("en", "utf-8")]
     for lang, enc in combos:
@@ -835,6 +861,11 @@ def classify(ctx, f):
         return "F17"
     if "Octave output cannot be read back" in w:
         return "F18"
+    if "read_html refuses gama's own HTML" in w and "not well-formed" in d and \
+            re.search(r'id="[^"]*(&(amp|lt);|\]\]&gt;)', str(f.replay.get("gkf", ""))):
+        return "F23"
+    if "XML and HTML (read by gama's HtmlParser) disagree" in w and re.search(r"id=\"[^\"]*&(amp|lt|gt|apos|quot);", str(f.replay.get("gkf", ""))):
+        return "F20"
     return None
 
 
